@@ -917,8 +917,10 @@ subroutine solve(initial_values, indexes,                                       
            return
         end if
 
-     ! Errors: Raise as required
-     else if(error_control == error_control_raise) then
+     ! Errors: Raise as required (always, for indexing and offset errors, which
+     ! never depend on the error control option)
+     else if(error_control == error_control_raise .or.  &
+          &  error_code < numerical_error_raise .or. error_code >= offset_predates_span) then
         return
      end if
 
